@@ -137,7 +137,7 @@ func c03FrameBytes(r interface{ Intn(int) int }, f kit.Shape, fill func(int) []b
 }
 
 func TestVerif_C03(t *testing.T) {
-	tr := kit.Open("C03-quic")
+	tr := kit.Open("C03-y-quic")
 	defer tr.Close()
 	r := kit.Rand(36)
 	var corpus [][]byte
